@@ -57,7 +57,7 @@ Lemma guards_present_steps :
   Skel_guards.chunk_ack_forward =
     [("trzszTransfer.pipelineRecvAck", "progressChan <- step", ["!(length != ack.length)"; "showProgress"])]%string /\
   Skel_guards.hash_ack_show =
-    [("trzszTransfer.pipelineRecvHashAck", "progress.onStep(matchStep)", ["ctx.Err() == nil"; "!(!hashAck.Match)"; "progress != nil"])]%string.
+    [("trzszTransfer.pipelineRecvHashAck", "progress.onStep(matchStep)", ["!(size == 0)"; "ctx.Err() == nil"; "!(!hashAck.Match)"; "progress != nil"])]%string.
 Proof. repeat split; reflexivity. Qed.
 
 (* every allocation / growth / repeat whose size is neither a constant nor the length of
